@@ -872,7 +872,8 @@ func (in *Interp) loadSym(sp *symPtr, T types.Type) value {
 	return &Sym{T: res}
 }
 
-// mapKey normalises a key for map use (concretises fully-concrete SymStr).
+// mapKey normalises a key for map use: symbolic leaves are concretised by
+// forking (strings must already be concrete).
 func (in *Interp) mapKey(k value) value {
 	switch k := k.(type) {
 	case *SymStr:
@@ -882,8 +883,67 @@ func (in *Interp) mapKey(k value) value {
 		panic(unsupported{"symbolic string used as map key"})
 	case *Sym:
 		return in.concretize(k, "map key")
+	case Tm:
+		if k.T != nil {
+			return in.concreteTm(k)
+		}
+	case structure:
+		var out structure
+		for i, f := range k {
+			nf := in.mapKey(f)
+			if out == nil {
+				switch nf.(type) {
+				case structure, array:
+					// always copy nested aggregates lazily below
+				}
+				if !sameLeaf(nf, f) {
+					out = append(structure{}, k...)
+				}
+			}
+			if out != nil {
+				out[i] = nf
+			}
+		}
+		if out != nil {
+			return out
+		}
+	case iface:
+		if k.t != nil {
+			nv := in.mapKey(k.v)
+			if !sameLeaf(nv, k.v) {
+				return iface{t: k.t, v: nv}
+			}
+		}
 	}
 	return k
+}
+
+func sameLeaf(a, b value) bool {
+	switch x := a.(type) {
+	case Tm:
+		y, ok := b.(Tm)
+		return ok && x.T == y.T && x.C == y.C
+	case *Sym:
+		return a == b
+	case string:
+		y, ok := b.(string)
+		return ok && x == y
+	case int64:
+		y, ok := b.(int64)
+		return ok && x == y
+	case structure:
+		y, ok := b.(structure)
+		if !ok || len(x) != len(y) {
+			return false
+		}
+		for i := range x {
+			if !sameLeaf(x[i], y[i]) {
+				return false
+			}
+		}
+		return true
+	}
+	return true
 }
 
 func (in *Interp) panicString(fr *frame, v value) string {
